@@ -131,6 +131,25 @@ func c15Run(v *V, scen int, keys []string, vals []string) string {
 		}
 		_, err := p.ParseArgs([]string{"li" + keys[0]})
 		return vErrString(err)
+	case 9: // completion of a command word when several names and aliases share the prefix
+		p := NewNamedParser("prog", None)
+		for _, n := range []string{"delete", "list", "load"} {
+			c, _ := p.AddCommand(n, "", "", &struct{}{})
+			switch n {
+			case "delete":
+				c.Aliases = []string{"remove", "rm", "ld"}
+			case "list":
+				c.Aliases = []string{"ls", "dir"}
+			}
+		}
+		out := ""
+		p.CompletionHandler = func(items []Completion) {
+			for _, it := range items {
+				out += it.Item + "|"
+			}
+		}
+		p.ParseArgs([]string{keys[0]})
+		return out
 	case 8: // an INI text with several unknown sections: which one the error names
 		d := &c15Sec{}
 		p := NewNamedParser("prog", None)
@@ -180,6 +199,9 @@ func H_C15_twice(v *V) {
 	}
 	if scen == 4 || scen == 5 {
 		v.Setenv("GO_FLAGS_COMPLETION", []string{"", "1"}[5-scen])
+	}
+	if scen == 9 {
+		v.Setenv("GO_FLAGS_COMPLETION", "1")
 	}
 	v.Setenv("SOURCE_DATE_EPOCH", "86400")
 	v.MapOrder(false)
